@@ -27,6 +27,9 @@ pub struct AuthUrlCase {
     /// configure the four other endpoints after the redirect was set (a setter that resets it would show)
     #[serde(default)]
     pub noise: bool,
+    /// seed of the ORDER in which the builder methods are called (the URL must not depend on it)
+    #[serde(default)]
+    pub order: u64,
 }
 
 pub const AUTH_ENDPOINTS: &[&str] = &[
@@ -90,6 +93,7 @@ impl CaseInput for AuthUrlCase {
                 .collect(),
             state: gen::hostile_s(r),
             noise: r.chance(1, 2),
+            order: r.below(1 << 20),
         }
     }
 
@@ -120,33 +124,54 @@ impl CaseInput for AuthUrlCase {
             plain.authorize_url(state_fn)
         };
         let custom = ResponseType::new(self.custom_rt.clone());
-        match self.rt {
-            1 => rq = rq.use_implicit_flow(),
-            2 => rq = rq.set_response_type(&custom),
-            _ => {}
-        }
         let challenge = match self.pkce {
             1 => Some(PkceCodeChallenge::from_code_verifier_sha256(&PkceCodeVerifier::new(self.verifier.clone()))),
             2 => Some(PkceCodeChallenge::from_code_verifier_plain(&PkceCodeVerifier::new(self.verifier.clone()))),
             _ => None,
         };
         let ch_pair = challenge.as_ref().map(|c| (c.as_str().to_string(), c.method().as_str().to_string()));
-        if let Some(c) = challenge {
-            rq = rq.set_pkce_challenge(c);
+        let mut challenge = challenge;
+        // the builder methods are called in a case-specific order: a method that clobbers what another one set
+        // (e.g. use_implicit_flow resetting the PKCE challenge) shows up under some order
+        let mut steps = vec![0u8, 1, 2, 3, 4];
+        let mut o = crate::gen::Rng::new(self.order);
+        for i in (1..steps.len()).rev() {
+            let j = o.below(i as u64 + 1) as usize;
+            steps.swap(i, j);
         }
-        if let Some(o) = &self.override_redirect {
-            rq = rq.set_redirect_uri(Cow::Owned(RedirectUrl::new(o.clone()).unwrap()));
-        }
-        if self.scopes.len() >= 2 {
-            rq = rq.add_scope(Scope::new(self.scopes[0].clone()));
-            rq = rq.add_scopes(self.scopes[1..].iter().map(|s| Scope::new(s.clone())));
-        } else {
-            for s in &self.scopes {
-                rq = rq.add_scope(Scope::new(s.clone()));
+        for st in steps {
+            match st {
+                0 => match self.rt {
+                    1 => rq = rq.use_implicit_flow(),
+                    2 => rq = rq.set_response_type(&custom),
+                    _ => {}
+                },
+                1 => {
+                    if let Some(c) = challenge.take() {
+                        rq = rq.set_pkce_challenge(c);
+                    }
+                }
+                2 => {
+                    if let Some(o) = &self.override_redirect {
+                        rq = rq.set_redirect_uri(Cow::Owned(RedirectUrl::new(o.clone()).unwrap()));
+                    }
+                }
+                3 => {
+                    if self.scopes.len() >= 2 {
+                        rq = rq.add_scope(Scope::new(self.scopes[0].clone()));
+                        rq = rq.add_scopes(self.scopes[1..].iter().map(|s| Scope::new(s.clone())));
+                    } else {
+                        for s in &self.scopes {
+                            rq = rq.add_scope(Scope::new(s.clone()));
+                        }
+                    }
+                }
+                _ => {
+                    for (k, v) in &self.extras {
+                        rq = rq.add_extra_param(k.clone(), v.clone());
+                    }
+                }
             }
-        }
-        for (k, v) in &self.extras {
-            rq = rq.add_extra_param(k.clone(), v.clone());
         }
         let (url, token) = rq.url();
         let canon = url::Url::parse(&self.endpoint).unwrap();
